@@ -417,6 +417,9 @@ func c15check(sc c15scn) func(x *mcrt.Exec) (string, string, string) {
 		if x.Out.Horizon || x.Out.Deadlock {
 			switch {
 			case o.shutdownCalled && !o.shutdownReturned && o.waitingDone > 0:
+				if sc.twoCycles {
+					return "stuck", "done-not-closed-during-shutdown-of-reused-server", "second Serve/Shutdown cycle on the same Server: a handler waiting on ctx.Done() was never woken although Shutdown is in progress (Done is not re-armed after the first cycle)"
+				}
 				return "stuck", "done-not-closed-during-shutdown", "a handler waiting on ctx.Done() was never woken although Shutdown is in progress"
 			case o.shutdownCalled && !o.shutdownReturned:
 				return "stuck", "shutdown-never-returns", fmt.Sprintf("Shutdown(background ctx) keeps polling: running handlers=%d; %s", o.running, strings.Join(x.Out.Blocked, "; "))
